@@ -12,6 +12,7 @@ import (
 	"sync"
 	"time"
 
+	"github.com/xelaj/mtproto/telegram"
 	"github.com/xelaj/mtproto/zverif/bridge"
 	"github.com/xelaj/mtproto/zverif/gen"
 	"github.com/xelaj/mtproto/zverif/ref/mtp"
@@ -68,6 +69,13 @@ func c13dyn(c *wk.Ctx) {
 		return
 	}
 	c.Count("dyn.generated_methods", int64(len(methods)))
+	// the hand-written generic wrappers are client methods too (telegram/methods_special.go)
+	wrappers := []string{"InitConnection", "InvokeWithLayer", "InvokeWithTakeout", "InvokeAfterMsg", "InvokeAfterMsgs", "InvokeWithoutUpdates", "InvokeWithMessagesRange"}
+	isWrapper := map[string]bool{}
+	for _, w := range wrappers {
+		isWrapper[w] = true
+		methods = append(methods, w)
+	}
 	reps := c.Pick(1, 10)
 	exp := &c13expect{}
 	costs := allSchema.ComputeCosts()
@@ -94,6 +102,16 @@ func c13dyn(c *wk.Ctx) {
 		var body []byte
 		if exp.fn != nil && exp.fn.IsFunc {
 			rt := exp.fn.Result
+			if len(exp.fn.Generics) > 0 {
+				// generic wrapper: the result is the result of the wrapped query (its last parameter)
+				q := v.Fields[len(v.Fields)-1]
+				for q.Kind == ts.KCon && q.Def != nil && len(q.Def.Generics) > 0 {
+					q = q.Fields[len(q.Fields)-1]
+				}
+				if q.Kind == ts.KCon && q.Def != nil && q.Def.IsFunc {
+					rt = q.Def.Result
+				}
+			}
 			o := &ts.GenOpts{R: rand.New(rand.NewSource(int64(exp.seenID) + int64(len(in.Body)))), MaxDepth: 2, Costs: costs, ForceStrLen: -1, Simple: true}
 			exp.result = allSchema.GenType(rt, o)
 			// walk through the constructors of a boxed result type: repetition k answers with constructor k (mod n)
@@ -145,6 +163,21 @@ func c13dyn(c *wk.Ctx) {
 				for i := 0; i < mt.NumIn(); i++ {
 					at := mt.In(i)
 					var av reflect.Value
+					if isWrapper[name] && at == gen.TObject {
+						// the wrapped query: a real function with simple arguments
+						// object-returning queries only: the wrappers' signature returns tl.Object and takes no decoder hints, so
+						// Bool and vector results are outside what these methods can express (the statement only demands that
+						// the wrappers carry their schema ids and layouts)
+						queries := []interface{}{&telegram.HelpGetConfigParams{}, &telegram.MessagesGetDhConfigParams{Version: int32(r.Intn(1000)), RandomLength: 8}, &telegram.HelpGetNearestDcParams{}, &telegram.UpdatesGetStateParams{}}
+						q := reflect.New(at).Elem()
+						q.Set(reflect.ValueOf(queries[r.Intn(len(queries))]))
+						args = append(args, q)
+						continue
+					}
+					if isWrapper[name] && at.Kind() == reflect.Int {
+						args = append(args, reflect.ValueOf(int(r.Int31n(1<<30))))
+						continue
+					}
 					if pan, pm, _ := wk.Guard(func() {
 						if at.Kind() == reflect.Ptr && at.Elem().Kind() == reflect.Struct && strings.HasSuffix(at.Elem().Name(), "Params") {
 							av = g.Object(at, nil, 0)
@@ -224,7 +257,7 @@ func c13dyn(c *wk.Ctx) {
 	if c.NShards == 1 && c.Only < 0 {
 		nfun := 0
 		for _, d := range apiSchema.Defs {
-			if !d.IsFunc || len(d.Generics) > 0 {
+			if !d.IsFunc {
 				continue
 			}
 			nfun++
@@ -259,6 +292,14 @@ func c13matchArgs(v *ts.Value, args []reflect.Value) string {
 	fi := 0
 	for i := range v.Def.Params {
 		if v.Def.Params[i].IsFlagsWord() {
+			continue
+		}
+		if slots[fi].Kind() == reflect.Int && (v.Fields[i].Kind == ts.KInt || v.Fields[i].Kind == ts.KLong) {
+			// hand-written wrappers take plain int
+			if slots[fi].Int() != v.Fields[i].I {
+				return fmt.Sprintf("argument %d (%d) does not arrive as parameter %s (%d)", fi, slots[fi].Int(), v.Def.Params[i].Name, v.Fields[i].I)
+			}
+			fi++
 			continue
 		}
 		if err := bridge.Match(slots[fi], &v.Fields[i]); err != nil {
